@@ -121,7 +121,7 @@ def judge(ctx):
     ctx.sample = {"spec": spec, "valid_candidates": verdicts[True], "invalid_candidates": verdicts[False]}
 
 
-CFG = G.cfg(aux=True, blocks=("cross", "cross", "multi"))
+CFG = G.cfg(aux=True, blocks=("cross", "cross", "multi", "repeat", "merge", "nest"))
 P = D.DesignProperty(
     "C17", judge,
     rule=("case = generated design spec in the reference domain plus an aux seed; candidates = up to n_valid valid sequences, n_perturb "
